@@ -633,6 +633,14 @@ fn cmd_check(engine: &dyn Engine, prop: &str, tier: Tier, known: &Known) -> i32 
     coverage.insert("faults_fired".into(), json!(faults));
     coverage.insert("probes_hit".into(), json!(probes));
     coverage.insert("unreached".into(), json!(unreached));
+    // abstraction cells (e.g. room version x event kind x verdict x rule): distinct cells reached
+    let mut cells: BTreeMap<String, usize> = BTreeMap::new();
+    for k in batch.counters.keys() {
+        if let Some(i) = k.find(".cell.") {
+            *cells.entry(k[..i + 5].to_string()).or_insert(0) += 1;
+        }
+    }
+    coverage.insert("distinct_cells_reached".into(), json!(cells));
     coverage.insert("real_components".into(), json!(spec.real_components));
     coverage.insert("stub_components".into(), json!(spec.stub_components));
     coverage.insert("contaminated_runs".into(), json!(contaminated));
